@@ -56,7 +56,7 @@ def read_result(el, shape, named, t):
 
 def res_shape(case):
     sa, sb = tuple(case["sa"]), tuple(case["sb"])
-    if case["form"] in ("ew", "ew2"):
+    if case["form"] in ("ew", "ew2", "dotmix"):
         return sb if sa == (0, 0) else sa
     if case["form"] in ("agg", "aggedit"):
         return (0, 0)
@@ -83,6 +83,8 @@ def numpy_result(case, A, B):
     if f == "aggedit":
         a[(0,) * a.ndim] = 9.0
         f = "agg"
+    if f == "dotmix":
+        return {"sub": lambda: a - np.dot(b, a), "in": lambda: np.dot(a, b + b * a), "in1": lambda: np.dot(a, b + a)}[op]().tolist()
     if f == "ew2":
         g = {"+": lambda x, y: x + y, "-": lambda x, y: x - y, "*": lambda x, y: x * y}
         return (g[op](a, g[case["op2"]](b, a)) if case["pos"] == "R" else g[op](g[case["op2"]](a, b), a)).tolist()
@@ -142,7 +144,10 @@ def run_case(R, case, named, scalar_kind, n_case, mismatch_names=False, result="
             a = make_operand(model, "opa", sa, A, scalar_kind, named, el=a)
         else:
             a = make_operand(model, "opa", sa, A, scalar_kind, named, order=oa)
-        if case["form"] == "ew2":
+        if case["form"] == "dotmix":
+            b = make_operand(model, "opb", sb, B, scalar_kind, named)
+            expr = {"sub": lambda: a - b.dot(a), "in": lambda: a.dot(b + (b * a)), "in1": lambda: a.dot(b + a)}[case["op"]]()
+        elif case["form"] == "ew2":
             b = make_operand(model, "opb", sb, B, scalar_kind, named)
             f = {"+": lambda x, y: x + y, "-": lambda x, y: x - y, "*": lambda x, y: x * y}
             expr = f[case["op"]](a, f[case["op2"]](b, a)) if case["pos"] == "R" else f[case["op"]](f[case["op2"]](a, b), a)
@@ -225,8 +230,8 @@ def run(tier, replay_file=None):
                 run_case(R, case, True, "element", n, result=result)
                 R.add("traces_validated_against_impl"); R.add("permuted_declaration_cases")
             continue
-        if case["form"] in ("ew2", "aggedit"):
-            for named in (False, True):
+        if case["form"] in ("ew2", "aggedit", "dotmix"):
+            for named in ((False,) if case["form"] == "dotmix" else (False, True)):        # the dot product is not offered for named arrays
                 n += 1
                 run_case(R, case, named, "element", n)
                 R.add("traces_validated_against_impl"); R.add("nested_or_edited_cases")
